@@ -1,0 +1,28 @@
+//go:build verif
+
+// Usage contract for the bundled example (C17), read by the verifier in /verif (govc).  Comments only.
+//
+// The library API is described here by assumed contracts that follow from the contracts verified in
+// package dbft: OnReceive / OnTimeout / Start / Reset may decide a block (set BlockSent()), nothing else
+// that the event loop calls changes it.  The typestate rule of the library ("after a block is accepted
+// dBFT stops until Reset") becomes an assertion at the point where the event loop starts waiting.
+
+package main
+
+//@ uses dbft
+//@ runtags [C17]
+
+//@ extern dbft.(*DBFT).Start
+//@   modifies Context.blockProcessed
+//@ extern dbft.(*DBFT).Reset
+//@   modifies Context.blockProcessed
+//@ extern dbft.(*DBFT).OnReceive
+//@   modifies Context.blockProcessed
+//@ extern dbft.(*DBFT).OnTimeout
+//@   modifies Context.blockProcessed
+
+//@ func (*simNode).Run
+//@   requires ctx != nil && n.d.Config.Timer != nil
+//@   loop 1: invariant n.d.Config.Timer != nil
+//@   loop 2: invariant n.d.Config.Timer != nil
+//@   at call n.d.Timer.C: assert [C17] @neverWaitsDecided !n.d.BlockSent()
